@@ -118,6 +118,26 @@ func replay(args map[string]string) error {
 				_, ferr := pd.S.IsBootstrapped(ctx, &pdpb.IsBootstrappedRequest{Header: &pdpb.RequestHeader{ClusterId: pd.S.ClusterID() + 1}})
 				ev["foreign_refused"] = ferr != nil
 				ev["cluster_id_same"] = true
+				// once the cluster exists: a configuration update that names another cluster (id + 1, or no id at all) is refused,
+				// one that names this cluster is accepted, and the identity served and stored afterwards is still the same
+				metaSame, cfgRefused := true, true
+				if rc := pd.S.GetRaftCluster(); rc != nil && err == nil && ib.GetBootstrapped() {
+					me := pd.S.ClusterID()
+					for _, other := range []uint64{0, me + 1} {
+						if _, perr := pd.S.PutClusterConfig(ctx, &pdpb.PutClusterConfigRequest{Header: pd.Header(), Cluster: &metapb.Cluster{Id: other, MaxPeerCount: 7}}); perr == nil {
+							cfgRefused = false
+						}
+					}
+					_, _ = pd.S.PutClusterConfig(ctx, &pdpb.PutClusterConfigRequest{Header: pd.Header(), Cluster: &metapb.Cluster{Id: me, MaxPeerCount: 5}})
+					if gc, gerr := pd.S.GetClusterConfig(ctx, &pdpb.GetClusterConfigRequest{Header: pd.Header()}); gerr != nil || gc.GetCluster().GetId() != me {
+						metaSame = false
+					}
+					stored := &metapb.Cluster{}
+					if ok, lerr := pd.S.GetStorage().LoadMeta(stored); lerr != nil || !ok || stored.GetId() != me {
+						metaSame = false
+					}
+				}
+				ev["meta_id_same"], ev["foreign_config_refused"] = metaSame, cfgRefused
 			}
 			ev0 := trace.Ev{"beh": bi, "mode": "bootstrap"}
 			observe(ev0)
